@@ -417,6 +417,10 @@ func prefixComma(a []string) string {
 }
 
 func runC09(c *Ctx) error {
+	// handwritten programs (shapes that once slipped through), run by the Go toolchain
+	if err := c.runCorpus("C09-programs"); err != nil {
+		return err
+	}
 	c.Rep.Rule = "call: script functions with 0..4 int parameters (optionally a variadic tail), 0..3 results and 0..2 extra locals, called by a CALL instruction on the real VM with a caller stack prefix of 0..3 values, the right / a wrong argument count and every requested result count, final stack compared with the model; programs: generated signatures (0..5 parameters and 0..3 results over int, byte, float64, string, bool), all call forms (statement, single value, multi-assign with blanks by := / var / typed var / plain assignment, in functions and at package level, return f(), method value bound before reassignment, multi-result method, function-typed variable / parameter / field, variadic with 0..n extras and spread (functions, methods and method values with int, float64 and byte tails), blank parameters, calls as for-post and if-init statements, nested in expressions) and recursion to depth 3000, against the Go toolchain; distinct = distinct line / program; non-trivial = non-empty caller prefix and accepted call / program"
 	if err := c.c09Corr(); err != nil {
 		return err
